@@ -35,7 +35,9 @@ def _isclose(a, b, rel, abs_=0.0):
 
 
 def _okint(v: int, q: F) -> bool:
-    return v == math.floor(q) or abs(F(v) - q) < F(1, 10**9)
+    """v is the largest integer not exceeding q 'to floating-point accuracy': the exact floor, or
+    an integer within the rounding error of one float multiplication/division of size q."""
+    return v == math.floor(q) or abs(F(v) - q) <= max(F(1, 10**9), abs(q) * F(4, 10**16))
 
 
 def check_normal(case):
